@@ -622,4 +622,380 @@ theorem sum_map_cast {α : Type} (l : List α) (f : α → Nat) :
   | nil => rfl
   | cons a l ih => simp only [List.map_cons, List.sum_cons, ih, Int.natCast_add]
 
+/-! ## Counting sink writes -/
+
+theorem length_flatMap_const {α β : Type} (k : Nat) (f : α → List β) (l : List α) (h : ∀ x ∈ l, (f x).length = k) :
+    (l.flatMap f).length = k * l.length := by
+  induction l with
+  | nil => simp
+  | cons a l ih =>
+    rw [List.flatMap_cons, List.length_append, h a List.mem_cons_self,
+      ih (fun x hx => h x (List.mem_cons_of_mem _ hx)), List.length_cons, Nat.mul_succ]
+    omega
+
+theorem writeOrder_length (s : WState) : (writeOrder s).length = s.pages.length * s.cols.length := by
+  unfold writeOrder
+  rw [length_flatMap_const s.pages.length _ _ (by intro x _; simp), List.length_zipIdx]
+
+theorem writeOut_length (s : WState) : s.writeOut.length = 2 * s.pages.length * s.cols.length := by
+  unfold WState.writeOut
+  rw [length_flatMap_const 2 _ _ (by intro x _; rfl), writeOrder_length, Nat.mul_assoc]
+
+theorem batchOut_length (cols : List Col) (max : Nat) (codec : Codec) (b : List Rec) :
+    (batchOut cols max codec b).length = 2 * (chainOf max cols.length b).length * cols.length := by
+  have := writeOut_length (stateOf cols max codec b [] 0)
+  rw [stateOf_writeOut] at this
+  exact this
+
+/-- sink writes per call of a `Close`-free history -/
+def countsAux (max n : Nat) : List Rec → List Op → List Nat
+  | _, [] => []
+  | pend, .add r :: ops => 0 :: countsAux max n (pend ++ [r]) ops
+  | pend, .write :: ops => 2 * (chunksOf max pend).length * n :: countsAux max n [] ops
+  | pend, .close :: ops => 0 :: countsAux max n pend ops
+
+theorem outsAux_lengths (cols : List Col) (max : Nat) (codec : Codec) :
+    ∀ (ops : List Op) (pend : List Rec),
+      (outsAux cols max codec pend ops).map List.length = countsAux max cols.length pend ops
+  | [], _ => rfl
+  | .add r :: ops, pend => by simp [outsAux, countsAux, outsAux_lengths cols max codec ops]
+  | .close :: ops, pend => by simp [outsAux, countsAux, outsAux_lengths cols max codec ops]
+  | .write :: ops, pend => by
+    cases pend with
+    | nil => simp [outsAux, countsAux, outsAux_lengths cols max codec ops, chunksOf_nil]
+    | cons a l =>
+      simp only [outsAux, countsAux, List.map_cons, outsAux_lengths cols max codec ops, List.isEmpty_cons,
+        Bool.false_eq_true, if_false, batchOut_length]
+      simp [chainOf]
+
+/-! ## `Add`s change neither the row groups nor the footer -/
+
+theorem footerT_congr (s s' : WState) (hc : s.cols = s'.cols) (hk : s.codec.id = s'.codec.id)
+    (hr : s.rgs = s'.rgs) : footerT s = footerT s' := by
+  unfold footerT
+  rw [hc, hk, hr]
+
+theorem close_congr (s s' : WState) (hc : s.cols = s'.cols) (hk : s.codec.id = s'.codec.id)
+    (hr : s.rgs = s'.rgs) : s.close = s'.close := by
+  unfold WState.close
+  rw [footerT_congr s s' hc hk hr]
+
+theorem exec_adds (s : WState) (adds : List Op) (h : ∀ op ∈ adds, op.isAdd = true) :
+    (s.exec adds).cols = s.cols ∧ (s.exec adds).codec = s.codec ∧ (s.exec adds).rgs = s.rgs ∧
+    (s.exec adds).max = s.max ∧ s.outs adds = List.replicate adds.length [] := by
+  induction adds generalizing s with
+  | nil => simp [WState.exec, WState.outs]
+  | cons op adds ih =>
+    cases op with
+    | add r =>
+      have := ih (s.add r) (fun o ho => h o (List.mem_cons_of_mem _ ho))
+      simp only [WState.exec, WState.outs, List.length_cons, List.replicate_succ]
+      refine ⟨this.1, this.2.1, this.2.2.1, this.2.2.2.1, ?_⟩
+      rw [this.2.2.2.2]
+    | write => exact absurd (h .write List.mem_cons_self) (by simp [Op.isAdd])
+    | close => exact absurd (h .close List.mem_cons_self) (by simp [Op.isAdd])
+
+theorem isAdd_not_isClose (adds : List Op) (h : ∀ op ∈ adds, op.isAdd = true) :
+    ∀ op ∈ adds, op.isClose = false := by
+  intro op ho
+  have := h op ho
+  cases op <;> simp_all [Op.isAdd, Op.isClose]
+
+theorem exec_append (s : WState) (a b : List Op) : s.exec (a ++ b) = (s.exec a).exec b := by
+  induction a generalizing s with
+  | nil => rfl
+  | cons op a ih => cases op <;> simp [WState.exec, ih]
+
+theorem fileBytes_append (a b : List (Option (List Bytes))) : fileBytes (a ++ b) = fileBytes a ++ fileBytes b := by
+  simp [fileBytes]
+
+theorem fileBytes_cons (a : Option (List Bytes)) (b : List (Option (List Bytes))) :
+    fileBytes (a :: b) = (a.getD []).flatten ++ fileBytes b := by
+  simp [fileBytes]
+
+theorem fileBytes_replicate_nil (k : Nat) : fileBytes (List.replicate k (some [])) = [] := by
+  induction k with
+  | zero => rfl
+  | succ k ih => rw [List.replicate_succ, fileBytes_cons, ih]; rfl
+
+/-! ## Layout of the data region and the offsets in the footer -/
+
+/-- the bytes of a column chunk whose pages hold `ess`: header ‖ payload per page, along the chain -/
+def chunkBytes (codec : Codec) (c : Col) (ess : List PageEntries) : Bytes :=
+  (ess.flatMap (pageWrites codec c)).flatten
+
+theorem foldl_addEntries_totals (codec : Codec) (c : Col) (ess : List PageEntries) (ch : Chunk) :
+    (ess.foldl (Chunk.addEntries codec c) ch).totalCompressed = ch.totalCompressed + (chunkBytes codec c ess).length ∧
+    (ess.foldl (Chunk.addEntries codec c) ch).numValues = ch.numValues + (ess.map List.length).sum := by
+  induction ess generalizing ch with
+  | nil => simp [chunkBytes]
+  | cons e ess ih =>
+    have := ih (ch.addEntries codec c e)
+    simp only [List.foldl_cons, this.1, this.2]
+    simp only [chunkBytes, List.flatMap_cons, pageWrites, List.flatten_append, List.flatten_cons, List.flatten_nil,
+      List.length_append, Chunk.addEntries, Chunk.addPage, List.map_cons, List.sum_cons, List.length_nil]
+    omega
+
+theorem colChunk_totalCompressed (codec : Codec) (c : Col) (ess : List PageEntries) :
+    (colChunk codec c ess).totalCompressed = (chunkBytes codec c ess).length := by
+  have := (foldl_addEntries_totals codec c ess {}).1
+  simpa [colChunk] using this
+
+theorem colChunk_numValues (codec : Codec) (c : Col) (ess : List PageEntries) :
+    (colChunk codec c ess).numValues = (ess.map List.length).sum := by
+  have := (foldl_addEntries_totals codec c ess {}).2
+  simpa [colChunk] using this
+
+/-- a column chunk as the footer locates it -/
+structure ChunkLoc where
+  col : Col
+  chunk : Chunk
+  offset : Nat
+  bytes : Bytes
+
+/-- one row group's chunks `(column, totals, bytes)` laid out back to back from `pos` -/
+def locsFrom : List (Col × Chunk × Bytes) → Nat → List ChunkLoc
+  | [], _ => []
+  | (c, ch, bs) :: rest, pos => ⟨c, ch, pos, bs⟩ :: locsFrom rest (pos + bs.length)
+
+def itemsBytes (its : List (Col × Chunk × Bytes)) : Bytes := its.flatMap (·.2.2)
+
+/-- row groups laid out back to back from `pos` -/
+def fileLocs : List (List (Col × Chunk × Bytes)) → Nat → List (List ChunkLoc)
+  | [], _ => []
+  | its :: rest, pos => locsFrom its pos :: fileLocs rest (pos + (itemsBytes its).length)
+
+/-- the chunks of batch `b`: per column its totals and its bytes -/
+def batchItems (cols : List Col) (max : Nat) (codec : Codec) (b : List Rec) : List (Col × Chunk × Bytes) :=
+  cols.zipIdx.map fun (c, i) =>
+    (c, colChunk codec c (colEntries (chainOf max cols.length b) i),
+        chunkBytes codec c (colEntries (chainOf max cols.length b) i))
+
+/-- thrift `RowGroup`s for row groups `(num_rows, chunks)` laid out back to back from `pos`:
+`file_offset` and `data_page_offset` of every chunk (both written by `chunkT`) are its `locsFrom`
+offset, `total_byte_size` is the size of the row group's bytes -/
+def rgTs (cid : Nat) : List (Nat × List (Col × Chunk × Bytes)) → Nat → List Thrift.TVal
+  | [], _ => []
+  | (rows, its) :: rest, pos =>
+    Thrift.TVal.struct [(1, .list 12 ((locsFrom its pos).map fun x => chunkT x.col cid x.chunk x.offset)),
+             (2, .int 6 ((itemsBytes its).length : Nat)), (3, .int 6 rows)] :: rgTs cid rest (pos + (itemsBytes its).length)
+
+theorem rgChunksT_items (cols : List Col) (cid : Nat) :
+    ∀ (its : List (Col × Chunk × Bytes)) (pos : Nat), (∀ it ∈ its, it.2.1.totalCompressed = it.2.2.length) →
+      rgChunksT cols cid (its.map fun it => (it.1, some it.2.1)) pos =
+        ((locsFrom its pos).map (fun x => chunkT x.col cid x.chunk x.offset),
+          pos + (itemsBytes its).length, (itemsBytes its).length)
+  | [], pos, _ => rfl
+  | (c, ch, bs) :: rest, pos, h => by
+    have hh : ch.totalCompressed = bs.length := h (c, ch, bs) List.mem_cons_self
+    have ih := rgChunksT_items cols cid rest (pos + bs.length) (fun it hit => h it (List.mem_cons_of_mem _ hit))
+    simp only [List.map_cons, rgChunksT, hh, ih, locsFrom, itemsBytes, List.flatMap_cons, List.length_append]
+    simp only [Prod.mk.injEq, true_and]
+    omega
+
+theorem zip_zipIdx_map {α β : Type} (f : α × Nat → β) :
+    ∀ (l : List α) (k : Nat), l.zip ((l.zipIdx k).map f) = (l.zipIdx k).map fun x => (x.1, f x)
+  | [], _ => rfl
+  | a :: l, k => by simp [zip_zipIdx_map f l (k + 1)]
+
+theorem batchRG_zip (cols : List Col) (max : Nat) (codec : Codec) (b : List Rec) :
+    cols.zip (batchRG cols max codec b).chunks =
+      (batchItems cols max codec b).map fun it => (it.1, some it.2.1) := by
+  unfold batchRG batchItems
+  simp only [zip_zipIdx_map, List.map_map]
+  rfl
+
+theorem batchItems_sizes (cols : List Col) (max : Nat) (codec : Codec) (b : List Rec) :
+    ∀ it ∈ batchItems cols max codec b, it.2.1.totalCompressed = it.2.2.length := by
+  intro it hit
+  unfold batchItems at hit
+  obtain ⟨x, _, rfl⟩ := List.mem_map.mp hit
+  exact colChunk_totalCompressed _ _ _
+
+theorem rowGroupsT_empty (cols : List Col) (cid pos : Nat) : rowGroupsT cols cid [emptyRG cols.length] pos = [] := by
+  simp [rowGroupsT, emptyRG]
+
+/-- the footer's row groups for the closed row groups of the batches `done` -/
+theorem rowGroupsT_done (cols : List Col) (max : Nat) (codec : Codec) :
+    ∀ (done : List (List Rec)) (pos : Nat), (∀ b ∈ done, b ≠ []) →
+      rowGroupsT cols codec.id (done.map (batchRG cols max codec) ++ [emptyRG cols.length]) pos =
+        rgTs codec.id (done.map fun b => (b.length, batchItems cols max codec b)) pos
+  | [], pos, _ => rowGroupsT_empty cols codec.id pos
+  | b :: done, pos, h => by
+    have hb : (batchRG cols max codec b).numRows ≠ 0 := by
+      have := h b List.mem_cons_self
+      simpa [batchRG_numRows] using this
+    simp only [List.map_cons, List.cons_append, rowGroupsT, if_neg hb, batchRG_zip,
+      rgChunksT_items cols codec.id _ pos (batchItems_sizes cols max codec b), rgTs]
+    rw [rowGroupsT_done cols max codec done _ (fun b' hb' => h b' (List.mem_cons_of_mem _ hb'))]
+    rfl
+
+theorem locsFrom_slice :
+    ∀ (its : List (Col × Chunk × Bytes)) (pre post : Bytes) (x : ChunkLoc), x ∈ locsFrom its pre.length →
+      ((pre ++ itemsBytes its ++ post).drop x.offset).take x.bytes.length = x.bytes
+  | [], _, _, x, hx => by simp [locsFrom] at hx
+  | (c, ch, bs) :: rest, pre, post, x, hx => by
+    simp only [locsFrom, List.mem_cons] at hx
+    cases hx with
+    | inl e =>
+      subst e
+      simp only [itemsBytes, List.flatMap_cons, List.append_assoc]
+      rw [List.drop_left, List.take_left]
+    | inr e =>
+      have := locsFrom_slice rest (pre ++ bs) post x (by simpa using e)
+      simpa [itemsBytes, List.append_assoc] using this
+
+/-- every located chunk is where its offset says -/
+theorem fileLocs_slice :
+    ∀ (itss : List (List (Col × Chunk × Bytes))) (pre post : Bytes) (L : List ChunkLoc) (x : ChunkLoc),
+      L ∈ fileLocs itss pre.length → x ∈ L →
+      ((pre ++ itss.flatMap itemsBytes ++ post).drop x.offset).take x.bytes.length = x.bytes
+  | [], _, _, L, _, hL, _ => by simp [fileLocs] at hL
+  | its :: rest, pre, post, L, x, hL, hx => by
+    simp only [fileLocs, List.mem_cons] at hL
+    cases hL with
+    | inl e =>
+      subst e
+      have := locsFrom_slice its pre (rest.flatMap itemsBytes ++ post) x hx
+      simpa [List.append_assoc] using this
+    | inr e =>
+      have := fileLocs_slice rest (pre ++ itemsBytes its) post L x (by simpa using e) hx
+      simpa [List.append_assoc] using this
+
+theorem locsFrom_bytes : ∀ (its : List (Col × Chunk × Bytes)) (pos : Nat),
+    (locsFrom its pos).flatMap (·.bytes) = itemsBytes its
+  | [], _ => rfl
+  | (c, ch, bs) :: rest, pos => by simp [locsFrom, itemsBytes, locsFrom_bytes rest]
+
+/-- the located chunks, in order, tile the data region -/
+theorem fileLocs_bytes : ∀ (itss : List (List (Col × Chunk × Bytes))) (pos : Nat),
+    (fileLocs itss pos).flatten.flatMap (·.bytes) = itss.flatMap itemsBytes
+  | [], _ => rfl
+  | its :: rest, pos => by simp [fileLocs, locsFrom_bytes, fileLocs_bytes rest]
+
+theorem locsFrom_sizes : ∀ (its : List (Col × Chunk × Bytes)) (pos : Nat),
+    (∀ it ∈ its, it.2.1.totalCompressed = it.2.2.length) →
+    ∀ x ∈ locsFrom its pos, x.chunk.totalCompressed = x.bytes.length
+  | [], _, _, x, hx => by simp [locsFrom] at hx
+  | (c, ch, bs) :: rest, pos, h, x, hx => by
+    simp only [locsFrom, List.mem_cons] at hx
+    cases hx with
+    | inl e => subst e; exact h (c, ch, bs) List.mem_cons_self
+    | inr e => exact locsFrom_sizes rest _ (fun it hit => h it (List.mem_cons_of_mem _ hit)) x e
+
+theorem fileLocs_sizes : ∀ (itss : List (List (Col × Chunk × Bytes))) (pos : Nat),
+    (∀ its ∈ itss, ∀ it ∈ its, it.2.1.totalCompressed = it.2.2.length) →
+    ∀ L ∈ fileLocs itss pos, ∀ x ∈ L, x.chunk.totalCompressed = x.bytes.length
+  | [], _, _, L, hL => by simp [fileLocs] at hL
+  | its :: rest, pos, h, L, hL => by
+    simp only [fileLocs, List.mem_cons] at hL
+    cases hL with
+    | inl e => subst e; exact locsFrom_sizes its pos (h its List.mem_cons_self)
+    | inr e => exact fileLocs_sizes rest _ (fun its' h' => h its' (List.mem_cons_of_mem _ h')) L e
+
+theorem flatten_flatMap {α β : Type} (f : α → List (List β)) (l : List α) :
+    (l.flatMap f).flatten = l.flatMap fun x => (f x).flatten := by
+  induction l with
+  | nil => rfl
+  | cons a l ih => simp [ih]
+
+theorem batchOut_flatten (cols : List Col) (max : Nat) (codec : Codec) (b : List Rec) :
+    (batchOut cols max codec b).flatten = itemsBytes (batchItems cols max codec b) := by
+  unfold batchOut batchItems itemsBytes
+  rw [flatten_flatMap, List.flatMap_map]
+  rfl
+
+/-- the bytes written by the calls of a `Close`-free history are the batches' bytes, in order -/
+theorem fileBytes_outsAux (cols : List Col) (max : Nat) (codec : Codec) :
+    ∀ (ops : List Op) (pend : List Rec),
+      fileBytes ((outsAux cols max codec pend ops).map some) =
+        (batchesAux pend ops).flatMap fun b => itemsBytes (batchItems cols max codec b)
+  | [], _ => rfl
+  | .add r :: ops, pend => by
+    simp only [outsAux, batchesAux, List.map_cons, fileBytes_cons, fileBytes_outsAux cols max codec ops]
+    rfl
+  | .close :: ops, pend => by
+    simp only [outsAux, batchesAux, List.map_cons, fileBytes_cons, fileBytes_outsAux cols max codec ops]
+    rfl
+  | .write :: ops, pend => by
+    cases pend with
+    | nil =>
+      simp only [outsAux, batchesAux, List.map_cons, fileBytes_cons, fileBytes_outsAux cols max codec ops]
+      rfl
+    | cons a l =>
+      simp only [outsAux, batchesAux, List.map_cons, fileBytes_cons, fileBytes_outsAux cols max codec ops,
+        List.isEmpty_cons, Bool.false_eq_true, if_false, List.flatMap_cons, Option.getD_some, batchOut_flatten]
+
+/-! ## Contiguity, explicitly -/
+
+/-- `xs` are laid out back to back starting at `pos` -/
+def Contig : Nat → List ChunkLoc → Prop
+  | _, [] => True
+  | pos, x :: xs => x.offset = pos ∧ Contig (pos + x.bytes.length) xs
+
+theorem Contig_append : ∀ (a b : List ChunkLoc) (pos : Nat), Contig pos a →
+    Contig (pos + (a.flatMap (·.bytes)).length) b → Contig pos (a ++ b)
+  | [], b, pos, _, hb => by simpa using hb
+  | x :: a, b, pos, ha, hb => by
+    refine ⟨ha.1, Contig_append a b _ ha.2 ?_⟩
+    simpa [List.flatMap_cons, Nat.add_assoc] using hb
+
+theorem locsFrom_Contig : ∀ (its : List (Col × Chunk × Bytes)) (pos : Nat), Contig pos (locsFrom its pos)
+  | [], _ => trivial
+  | (_, _, bs) :: rest, pos => ⟨rfl, locsFrom_Contig rest (pos + bs.length)⟩
+
+theorem fileLocs_Contig : ∀ (itss : List (List (Col × Chunk × Bytes))) (pos : Nat),
+    Contig pos (fileLocs itss pos).flatten
+  | [], _ => trivial
+  | its :: rest, pos => by
+    simp only [fileLocs, List.flatten_cons]
+    apply Contig_append _ _ _ (locsFrom_Contig its pos)
+    rw [locsFrom_bytes]
+    exact fileLocs_Contig rest _
+
+/-- the `k`-th chunk of a contiguous layout starts at `pos` + the sizes of the chunks before it -/
+theorem Contig_offset : ∀ (xs : List ChunkLoc) (pos : Nat), Contig pos xs → ∀ (k : Nat) (h : k < xs.length),
+    xs[k].offset = pos + ((xs.take k).map (·.bytes.length)).sum
+  | [], _, _, k, h => by simp at h
+  | x :: xs, pos, hc, 0, _ => by simpa using hc.1
+  | x :: xs, pos, hc, k + 1, h => by
+    have := Contig_offset xs _ hc.2 k (by simpa using h)
+    simp only [List.getElem_cons_succ, this, List.take_succ_cons, List.map_cons, List.sum_cons]
+    omega
+
+/-! ## The number of pages -/
+
+theorem chunksAux_length {α : Type} {max : Nat} (hmax : 1 ≤ max) :
+    ∀ (f : Nat) (l : List α), l.length ≤ f → (chunksAux f max l).length = (l.length + max - 1) / max := by
+  intro f
+  induction f with
+  | zero =>
+    intro l h
+    have : l = [] := List.length_eq_zero_iff.mp (by omega)
+    subst this
+    simp only [chunksAux, List.length_nil, Nat.zero_add]
+    exact (Nat.div_eq_of_lt (by omega)).symm
+  | succ f ih =>
+    intro l h
+    cases l with
+    | nil =>
+      simp only [chunksAux_succ, List.isEmpty_nil, if_true, List.length_nil, Nat.zero_add]
+      exact (Nat.div_eq_of_lt (by omega)).symm
+    | cons a l =>
+      simp only [chunksAux_succ, List.isEmpty_cons, Bool.false_eq_true, if_false, List.length_cons]
+      rw [ih _ (by simp only [List.length_drop, List.length_cons]; simp only [List.length_cons] at h; omega)]
+      simp only [List.length_drop, List.length_cons]
+      by_cases hc : max ≤ l.length + 1
+      · have e1 : l.length + 1 - max + max - 1 = l.length := by omega
+        have e2 : l.length + 1 + max - 1 = l.length + max := by omega
+        rw [e1, e2, Nat.add_div_right _ (by omega : 0 < max)]
+      · have e1 : l.length + 1 - max + max - 1 = max - 1 := by omega
+        have e2 : l.length + 1 + max - 1 = l.length + max := by omega
+        rw [e1, e2, Nat.add_div_right _ (by omega : 0 < max), Nat.div_eq_of_lt (by omega), Nat.div_eq_of_lt (by omega)]
+
+/-- `⌈|l| / max⌉` chunks -/
+theorem chunksOf_length {α : Type} {max : Nat} (hmax : 1 ≤ max) (l : List α) :
+    (chunksOf max l).length = (l.length + max - 1) / max :=
+  chunksAux_length hmax _ l (Nat.le_refl _)
+
 end PQ
